@@ -18,6 +18,26 @@ def gen_perm_list(rng):
     n = rng.randint(1, 7)
     k = rng.randint(1, 6)
     gens = []
+    if rng.random() < 0.15:
+        # long permutations that move only a few positions - at the head, anywhere, or at the very tail (keys or sums over positions that overflow lose the tail)
+        n = rng.choice([24, 32, 33, 40, 48, 64, 100, 128])
+        for _ in range(k):
+            r = rng.random()
+            if r < 0.25 and gens:
+                gens.append(G.inverse_perm(rng.choice(gens)))
+                continue
+            if r < 0.35 and gens:
+                gens.append(list(rng.choice(gens)))
+                continue
+            supp_len = rng.choice([2, 3, 3, 4, 5])
+            where = rng.choice(["tail", "tail", "head", "any"])
+            pos = (list(range(n - supp_len, n)) if where == "tail" else list(range(supp_len)) if where == "head" else sorted(rng.sample(range(n), supp_len)))
+            p = list(range(n))
+            rot = pos[1:] + pos[:1]
+            for a, b in zip(pos, rot):
+                p[a] = b
+            gens.append(p)
+        return n, gens
     for _ in range(k):
         r = rng.random()
         if r < 0.12:
@@ -51,24 +71,22 @@ def unimodular(rng, n, steps, big):
 
 
 def exact_integer_inverse(M):
-    """Oracle: the inverse over the rationals by cofactor expansion / adjugate with Python integers; None unless it is an integer matrix."""
+    """Oracle: the inverse over the rationals by Gauss-Jordan elimination with Python Fractions; None unless it exists and is an integer matrix."""
     from fractions import Fraction
     n = len(M)
-
-    def det(A):
-        if len(A) == 1:
-            return A[0][0]
-        if len(A) == 2:
-            return A[0][0] * A[1][1] - A[0][1] * A[1][0]
-        return sum((-1) ** j * A[0][j] * det([row[:j] + row[j + 1:] for row in A[1:]]) for j in range(len(A)) if A[0][j])
-    d = det(M)
-    if d == 0:
-        return None
-    if n == 1:
-        adj = [[1]]
-    else:
-        adj = [[(-1) ** (i + j) * det([row[:i] + row[i + 1:] for k, row in enumerate(M) if k != j]) for j in range(n)] for i in range(n)]
-    inv = [[Fraction(v, d) for v in row] for row in adj]
+    A = [[Fraction(v) for v in row] + [Fraction(1 if i == j else 0) for j in range(n)] for i, row in enumerate(M)]
+    for c in range(n):
+        piv = next((r for r in range(c, n) if A[r][c] != 0), None)
+        if piv is None:
+            return None
+        A[c], A[piv] = A[piv], A[c]
+        pv = A[c][c]
+        A[c] = [v / pv for v in A[c]]
+        for r in range(n):
+            if r != c and A[r][c] != 0:
+                f = A[r][c]
+                A[r] = [x - f * y for x, y in zip(A[r], A[c])]
+    inv = [row[n:] for row in A]
     if any(v.denominator != 1 for row in inv for v in row):
         return None
     return [[int(v) for v in row] for row in inv]
@@ -195,6 +213,11 @@ def run(ctx):
                 # ill-conditioned unimodular matrices: the rounded floating-point inverse is off by more than 1/2 (finding F24)
                 n, modulo = 4, 0
                 mats = [unimodular(rng, 4, rng.randint(9, 14), rng.choice([2**10, 2**11, 2**12])) for _ in range(rng.randint(1, 2))]
+                if it % 12 == 5:
+                    # small entries, HUGE exact inverse (beyond 2^53, below 2^62): identity + c on the superdiagonal; anything that passes through float64 loses digits
+                    c_, n = rng.choice([(3, rng.randint(35, 39)), (10, rng.randint(17, 18)), (2, rng.randint(55, 61)), (-3, 36), (7, rng.randint(20, 22))])
+                    mats = [[[1 if i == j else c_ if j == i + 1 else 0 for j in range(n)] for i in range(n)]]
+                    ctx.count("huge_inverse_cases")
                 if it % 12 == 11:
                     # Fibonacci blocks [[F(k+1), F(k)], [F(k), F(k-1)]] (determinant +-1): from k = 40 LAPACK reports "Singular matrix" (finding F27)
                     n = rng.randint(2, 4)
